@@ -69,7 +69,9 @@ CHECKS = {
               "leaf) over random integer leaves x chosen group elements and checks twin[i]=Act(g,reg[i]) for every register plus "
               "contraction order/pair-order independence and tensor-product commutativity up to transposition. Both the plain and the "
               "g-transformed run of every program are replayed on the code, comparing values exactly and the declared k/parity/D/"
-              "extents/flags after each step; conformance of both runs to a spec in which TypeSound holds is the property on the code."),
+              "extents/flags after each step; conformance of both runs to a spec in which TypeSound holds is the property on the code. "
+              "Every tensor-product step is also replayed through the functional geom.mul with 0, 1 and 2 leading axes on either "
+              "operand (equal and unequal offsets)."),
         design_ref="DESIGN.md 4 C05",
         note="Trusted: TLC/SANY/Json; generic-point argument for polynomial identities (random integer leaves per seed); float32 exact; depth 2 exhaustive (3 thorough), depth 4 simulated.",
     ),
@@ -169,8 +171,10 @@ CHECKS = {
               "operations themselves (d=1,2,3, non-square, 1-3 leading axes, partial type sets, all storage orders). Every chain "
               "of the bounded depth (plus simulated depth-6 chains) is replayed into real MultiImage objects on token values, so "
               "each intermediate layout -- not only the composed identity -- is compared entry by entry with the specified one. "
-              "ml.save/ml.load is exercised per model class: leaves and outputs bit-equal after loading into a differently "
-              "initialised twin."),
+              "ml.save/ml.load: Serialise.tla states Load(Save(m), t) = m for every same-structured template t (TLC, all small "
+              "leaf-kind sequences, with an arrays-only loader as negative control) and names the leaf kinds a template may differ "
+              "in; per model class (layers, networks, GroupAverage, GroupNorm, ModelWrapper) a saved model is loaded into a twin that "
+              "differs in its arrays AND in its bool / int / float leaves: every leaf and every output bit-equal afterwards."),
         design_ref="DESIGN.md 4 C13",
         note="Trusted: TLC/SANY/Json, float32 exactness on tokens, equinox serialisation API. Chains bounded (depth 3-4 exhaustive, 6 simulated).",
     ),
@@ -305,7 +309,7 @@ def main():
              "kind_free_text": "TLC 1.8 model checking of the TLA+ modules under spec/, CASE lines (ToJson) replayed into ginjax; recorded traces validated by TLC trace specs"},
         ],
         "checks": checks,
-        "notes": "Specifications: spec/*.tla (vocabulary + machines), spec/mc (MC/GEN instances), spec/trace (trace specs). known_findings.json lists repaired (fixed:) and recorded (known) genuine defects.",
+        "notes": "Specifications: spec/*.tla (vocabulary + machines), spec/mc (MC/GEN instances), spec/trace (trace specs). known_findings.json lists repaired (fixed:) and recorded (known) genuine defects. Specification coverage beyond the listed properties (not registered as property checks): `bin/extra benchmark` -- Benchmark.tla, the ml.benchmark loop, model-checked and trace-validated against recorded real runs (DESIGN 17).",
         "not_applicable": [{"property_id": p, "reason": NA.get(p, PENDING_REASON)} for p in ALL if p not in CHECKS],
     }
     with open(os.path.join(VERIF, "MANIFEST.json"), "w") as f:
